@@ -76,6 +76,23 @@ def elem(t):
     return "node" if t == "tree" else t[1]
 
 
+def is_optq(t):
+    return isinstance(t, tuple) and t[0] == "opt" and t[1] == "?"
+
+
+def compat(a, b):
+    """element types that can be the same type ('?' = not yet known)"""
+    if a == b or a == "?" or b == "?":
+        return True
+    return isinstance(a, tuple) and isinstance(b, tuple) and a[0] == "opt" and b[0] == "opt" and compat(a[1], b[1])
+
+
+def refine(a, b):
+    if a == "?" or is_optq(a):
+        return b if compat(a, b) else a
+    return a
+
+
 def is_tuple(t):
     return isinstance(t, tuple) and t[0] == "tuple"
 
@@ -164,7 +181,7 @@ getslice setslice getslice_obj setslice_obj pop_last list_insert list_mul range1
 eph_call frac_ltb terminal_ratio dd_get dd_mem dd_append dd_set dd_keys mode_eqb for_each while_fuel while_draws
 d_random d_randint d_randrange d_choice d_eph prims terms p_ret p_prims p_terms p_rnum p_rden lt_frac is_term is_prim
 map filter rev app nil cons fst snd negb andb orb true false tt unit nat Z N bool list option Some None length existsb
-firstn skipn combine seq repeat concat id positive eq0 lt0 unbound EStuck""".split())
+firstn skipn combine seq repeat concat id positive eq0 lt0 unbound EStuck unwrap_all""".split())
 
 
 def cn(name):
@@ -277,6 +294,9 @@ class Tr(object):
             t = vs[0][1]
             if any(x[1] != t for x in vs):
                 refuse(e, "list display of mixed types")
+            if t == "none":
+                # placeholders: a list of optional values whose element type is fixed by the first item stored
+                return "[%s]" % "; ".join(v for v, _ in vs), ("list", ("opt", "?"))
             return "[%s]" % "; ".join(v for v, _ in vs), ("list", t)
         if isinstance(e, ast.Attribute):
             return self.attribute(e, binds)
@@ -844,9 +864,8 @@ class Tr(object):
         if old is not None and old != t:
             if isinstance(old, FnT) or isinstance(t, FnT) or old in ("choicefn", "zpred"):
                 refuse(node, "rebinding of the function-valued name %s" % name)
-            if is_list(old) and is_list(t) and (elem(old) == "?" or elem(t) == "?" or elem(old) == elem(t)) \
-                    and (old == "tree") == (t == "tree"):
-                t = old if elem(t) == "?" else t
+            if is_list(old) and is_list(t) and compat(elem(old), elem(t)) and (old == "tree") == (t == "tree"):
+                t = old if old == "tree" else ("list", refine(elem(old), elem(t)))
             elif isinstance(old, tuple) and old[0] == "maybe" and old[1] == t:
                 pass
             else:
@@ -970,13 +989,42 @@ class Tr(object):
             refuse(s, "exception handler does not re-raise IndexError")
         return self.block(list(s.body) + rest, sc, ind)
 
-    def store(self, node, target, v, tv, binds):
+    def unwrapped(self, v, tv, binds):
+        """a list of placeholders-or-values used where a list of values is needed: every item must have been set"""
+        if is_list(tv) and isinstance(elem(tv), tuple) and elem(tv)[0] == "opt":
+            y = self.temp()
+            binds.append((y, "unwrap_all %s" % v))
+            return y, ("list", elem(tv)[1])
+        return v, tv
+
+    def store(self, node, target, v, tv, binds, value_ast=None):
         """x[i] = v / x[a:b] = v / x[s] = v / d[k] = v : appends the effects to binds, rebinding x"""
         name = target.value.id if isinstance(target.value, ast.Name) else None
         if name is None or name not in self.env:
             refuse(node, "subscript assignment target")
         t = self.env[name]
         x = cn(name)
+        if is_list(t) and t != "tree" and isinstance(elem(t), tuple) and elem(t)[0] == "opt":
+            # a list of placeholders: items are stored as Some
+            self.need_mutable(node, name, "item assignment")
+            inner = elem(t)[1]
+            if isinstance(target.slice, ast.Slice):
+                a, b = self.index_parts(target.slice, binds)
+                if not is_list(tv) or not compat(inner, elem(tv)) or isinstance(elem(tv), tuple):
+                    refuse(node, "slice assignment of %s into %s" % (tv, t))
+                self.env[name] = ("list", ("opt", refine(inner, elem(tv))))
+                binds.append((x, "ret (setslice %s %s %s (map Some %s))" % (x, a, b, v)))
+                return
+            i, ti = self.expr(target.slice, binds)
+            if ti != "Z" or is_list(tv) or isinstance(tv, (tuple, FnT)) or not compat(inner, tv):
+                refuse(node, "item assignment %s[%s] = %s" % (t, ti, tv))
+            self.env[name] = ("list", ("opt", refine(inner, tv)))
+            binds.append((x, "list_setitem %s %s (Some %s)" % (x, i, v)))
+            return
+        if t == "tree":
+            v, tv = self.unwrapped(v, tv, binds)
+        if is_list(tv) and not isinstance(target.slice, ast.Slice) and isinstance(value_ast, ast.Name) and False:
+            pass
         if t == "dd":
             k, tk = self.expr(target.slice, binds)
             if tk != "ty" or tv != ("list", "Z"):
@@ -1012,6 +1060,8 @@ class Tr(object):
             return
         if ti != "Z" or tv != elem(t):
             refuse(node, "item assignment %s[%s] = %s" % (t, ti, tv))
+        if is_list(tv) and isinstance(value_ast, ast.Name):
+            refuse(node, "a list stored as an item under a second name")
         if t == "tree":
             if "setitem_item" not in self.meth:
                 refuse(node, "tree item assignment before __setitem__ is translated")
@@ -1056,7 +1106,9 @@ class Tr(object):
         if kind == "insert":
             i = self.zexpr(args[0], binds)
             v, tv = self.expr(args[1], binds)
-            if is_list(tv) or elem(t) not in ("?", tv):
+            if isinstance(elem(t), tuple) and elem(t)[0] == "opt" and not is_list(tv) and compat(elem(t)[1], tv):
+                v, tv = "(Some %s)" % v, ("opt", refine(elem(t)[1], tv))
+            if is_list(tv) or not compat(elem(t), tv):
                 refuse(s, "insert of %s into %s" % (tv, t))
             self.bind_local(s, name, ("list", tv))
             return self.emit(binds, pad + "let %s := list_insert %s %s %s in\n" % (x, x, i, v) + self.block(rest, sc, ind), pad)
@@ -1116,12 +1168,12 @@ class Tr(object):
                 y = self.temp()
                 binds.append((y, "ret %s" % v))
                 vals.append((y, t))
-            for tg, (v, t) in zip(target.elts, vals):
-                self.store(s, tg, v, t, binds)
+            for tg, (v, t), va in zip(target.elts, vals, value.elts):
+                self.store(s, tg, v, t, binds, va)
             return self.emit(binds, self.block(rest, sc, ind), pad)
         if isinstance(target, ast.Subscript):
             v, t = self.expr(value, binds)
-            self.store(s, target, v, t, binds)
+            self.store(s, target, v, t, binds, value)
             return self.emit(binds, self.block(rest, sc, ind), pad)
         if isinstance(target, ast.Tuple):
             if not all(isinstance(x, ast.Name) for x in target.elts) or len({x.id for x in target.elts}) != len(target.elts):
@@ -1141,7 +1193,7 @@ class Tr(object):
             refuse(s, "assignment target")
         name = target.id
         v, t = self.expr(value, binds)
-        if t == "none" or t == ("list", "none"):
+        if t == "none":
             refuse(s, "None stored in a local")
         if isinstance(value, ast.Name) and (is_list(t) or t == "dd"):
             refuse(s, "a second name for the list %s" % value.id)
@@ -1150,6 +1202,8 @@ class Tr(object):
             if name in self.env and self.env[name] != t:
                 refuse(s, "rebinding of %s to a function" % name)
             self.env[name] = t
+            if t == "choicefn":
+                return self.emit(binds, self.block(rest, sc, ind), pad)      # an alias of random.choice: resolved at its calls
         else:
             self.bind_local(s, name, t)
         if binds and binds[-1][0] == v and not v.endswith("'"):
@@ -1219,8 +1273,8 @@ class Tr(object):
         for v in vs:
             t1, t2 = a.env[v], b.env[v]
             if t1 != t2:
-                if is_list(t1) and is_list(t2) and "?" in (elem(t1), elem(t2)) and (t1 == "tree") == (t2 == "tree"):
-                    t1 = t2 if elem(t1) == "?" else t1
+                if is_list(t1) and is_list(t2) and compat(elem(t1), elem(t2)) and t1 != "tree" and t2 != "tree":
+                    t1 = ("list", refine(elem(t1), elem(t2)))
                 else:
                     refuse(s, "%s has different types in the two branches" % v)
             if isinstance(t1, FnT) or (isinstance(t1, tuple) and t1[0] == "maybe"):
@@ -1276,8 +1330,8 @@ class Tr(object):
         for v in vs:
             t0, t1 = self.env[v], b.env.get(v)
             if t0 != t1:
-                if is_list(t0) and is_list(t1) and elem(t0) == "?" and t0 != "tree" and t1 != "tree":
-                    self.env[v] = t1
+                if is_list(t0) and is_list(t1) and compat(elem(t0), elem(t1)) and t0 != "tree" and t1 != "tree":
+                    self.env[v] = ("list", refine(elem(t0), elem(t1)))
                 else:
                     refuse(node, "loop changes the type of %s from %s to %s" % (v, t0, t1))
         init = [cn(v) for v in vs] + ["None" for _ in fresh]
@@ -1516,7 +1570,9 @@ def compute_mutable(body, params):
                 elif isinstance(t, ast.Tuple):
                     bad.update(x.id for x in t.elts if isinstance(x, ast.Name))
             if not (isinstance(n.targets[0], ast.Tuple) and isinstance(n.value, ast.Tuple)
-                    and all(isinstance(x, ast.Subscript) for x in n.targets[0].elts)):
+                    and all(isinstance(x, ast.Subscript) for x in n.targets[0].elts)) \
+                    and not isinstance(n.targets[0], ast.Subscript):
+                # (a slice assignment copies the items; an item assignment of a list under a name is refused in store)
                 bad.update(sources(n.value))
         elif isinstance(n, ast.AugAssign):
             bad.update(x.id for x in ast.walk(n.target) if isinstance(x, ast.Name))
